@@ -350,6 +350,13 @@ unsafe fn fin(t: u8, call: Call, a: [i64; 3], res: Result<i64, i32>) -> i64 {
 fn note_std_touch(t: u8, what: &str, fd: i32) {
     if (0..=2).contains(&fd) {
         let s = sim();
+        // a parent started with closed standard descriptors gets the library's own pipes at
+        // these numbers; handling those is not touching the parent's standard streams
+        if let Some(e) = s.k.proc(PARENT_PID).fds.get(&fd) {
+            if s.k.descs[e.desc].origin != Origin::Boot {
+                return;
+            }
+        }
         let label = s.threads[t as usize].lib_label.clone().unwrap_or_else(|| "outside-lib".into());
         s.k.std_touched.push(format!("{}({}) in {}", what, fd, label));
     }
